@@ -250,7 +250,24 @@ MockInfo(x, m, T) ==
           LAMBDA fix : MockInfoOf(x, m, c, fix, T)))
 \* build-tags (MOCKERY_BUILD_TAGS): in a `tagged` world K2 of package k is declared in a file constrained by
 \* `//go:build extra`; it exists for mockery only when the TOP-LEVEL build-tags value names that tag (mockery.go:187)
-Visible(x, p, L) == ~(x.tagged /\ p = "k" /\ L = "K2") \/ FirstSet(x.cfg, <<"flag", "root", "env">>, "build-tags") = "extra"
+\* container (config.go:400-405, 468-470): in a `container` world the directory of package a holds no Go files of its
+\* own (A1, A2 do not exist), only its sub-packages.  Written in `packages:` with `recursive: true` it is EXPANDED AND
+\* SKIPPED AT LOAD -- its discovered sub-packages are mocked with its settings, the run succeeds; without recursion it
+\* is a package that cannot be found (an invalid input, parse.go:53-61).
+Visible(x, p, L) == /\ ~(x.container /\ p = "a")
+                    /\ (~(x.tagged /\ p = "k" /\ L = "K2") \/ FirstSet(x.cfg, <<"flag", "root", "env">>, "build-tags") = "extra")
+\* MOCKERY_<PARAM>: every scalar parameter can come from the environment (name upper-cased, '-' spelled '_'); a boolean
+\* is recognised in any capitalisation of true / false (config.go:193-199) -- any other spelling ("1", "yes") reaches the
+\* decoder as a string and is rejected: an invalid input, for every command that loads the configuration
+BoolParams == {"all", "recursive", "force-file-write", "require-template-schema-exists"}
+\* (a value the config file overrides never reaches the decoder: koanf layers the sources first)
+FileSets(x) == IF x.cfgkind = "empty" \/ "root" \notin DOMAIN x.cfg THEN {} ELSE DOMAIN x.cfg["root"]
+\* a list- or map-valued parameter cannot be spelled in an environment variable at all: the string is rejected likewise
+NonScalar == {"exclude-subpkg-regex", "template-data"}
+EnvBad(x) == /\ "env" \in DOMAIN x.cfg
+             /\ \/ (x.envspell = "one" /\ (DOMAIN x.cfg["env"] \cap BoolParams) \ FileSets(x) # {})
+                \/ (DOMAIN x.cfg["env"] \cap NonScalar) \ FileSets(x) # {}
+Unloadable(x) == x.container /\ "a" \in ConfiguredSet(x) /\ ~CNodeCfg(x, "a")["recursive"]
 MissingC(x)   == UNION {{<<P(p), L>> : L \in {n \in CListed(x, p) : n \notin DeclT[p]}} : p \in ConfiguredSet(x)}
 LevelOK(x)    == CNodeCfg(x, "flag")["log-level"] \in LogLevels
 MockRecOf(i) == [pkg |-> i.pkg, iface |-> i.iface, file |-> i.file, struct |-> i.struct, pkgname |-> i.pkgname, tmpl |-> i.tmpl]
@@ -273,6 +290,8 @@ ContractOf(x, I, T) ==
       Flt(f) == FileFault(One(f).tid, One(f).req, One(f).fmt, One(f).pdata, {i.data : i \in Of(f)}) # "-" \/ x.fp.key = f
       MK(f)  == ~Uni(f) \/ Flt(f) \/ (f \in x.occ /\ ~Frc(f))
       Inp    == \/ x.pkgfault # "-"
+                \/ EnvBad(x)
+                \/ Unloadable(x)                              \* a configured package without Go files that is no container
                 \/ x.cfgkind # "normal"                       \* no packages to work on (mockery.go:193-196)
                 \/ \E i \in I : ~i.ok
                 \/ ~LevelOK(x)
@@ -286,6 +305,7 @@ ContractOf(x, I, T) ==
                 \* migrate: a v2 file that can be found and decoded is migrated
                 ELSE IF x.argv = "migrate" THEN (IF CfgThere THEN "zero" ELSE "nonzero")
                 ELSE IF x.argv \in {"badflag", "badcmd"} THEN "nonzero"
+                ELSE IF x.argv = "showconfig" /\ EnvBad(x) THEN "nonzero"
                 ELSE IF x.argv = "showconfig" /\ (x.pkgfault \in {"nocfg", "unknown-key"} \/ "real" \notin LY!RolesAllowed(x.lay)) THEN "nonzero"
                 ELSE "zero"
   IN [infos |-> I, files |-> F,
@@ -364,7 +384,7 @@ SkKeep == UNCHANGED sk
 \* error (status 1); everything else loads the configuration
 Start ==
   /\ pc = "start"
-  /\ CASE w.argv \in {"help", "version"} -> out' = w.argv /\ xc' = 0 /\ pc' = "proc"
+  /\ CASE w.argv \in {"help", "version", "completion", "helpcmd"} -> out' = w.argv /\ xc' = 0 /\ pc' = "proc"
        [] w.argv \in {"badflag", "badcmd"} -> out' = "usage-error" /\ xc' = 1 /\ pc' = "proc"
        [] w.argv \in {"init", "migrate"} -> pc' = w.argv /\ UNCHANGED <<out, xc>>
        [] OTHER -> pc' = "load" /\ UNCHANGED <<out, xc>>
@@ -395,7 +415,7 @@ Fail == IF w.argv = "run" THEN pc' = "die" /\ UNCHANGED xc ELSE pc' = "proc" /\ 
 \* upward search; layering defaults < MOCKERY_* < file < flags; ErrorUnused rejects an unknown key.
 LoadSources ==
   /\ pc = "load"
-  /\ IF w.pkgfault \in {"nocfg", "unknown-key"}
+  /\ IF w.pkgfault \in {"nocfg", "unknown-key"} \/ EnvBad(w)
      THEN Fail /\ UNCHANGED mcfg
      ELSE /\ LET role == LY!ImplRoleUsed(w.lay)
                  file == IF w.cfgkind = "empty" THEN << >> ELSE IF role = "real" THEN Own("root") ELSE Over(Own("root"), DecoyRoot)
@@ -442,7 +462,8 @@ Recursive ==
   /\ pc = "loop2" /\ cx.recq # << >>
   /\ LET r == Head(cx.recq) IN
        /\ Sk([ev |-> "Recursive", pkg |-> P(r), psegs |-> PS(r)])
-       /\ cx' = [cx EXCEPT !.recq = Tail(@), !.curp = r, !.subq = SubList[r]]
+       \* `go list r/...` keeps packages with Go files only: a container is not in its own list
+       /\ cx' = [cx EXCEPT !.recq = Tail(@), !.curp = r, !.subq = IF w.container /\ r = "a" THEN Tail(SubList[r]) ELSE SubList[r]]
   /\ pc' = "subs"
   /\ UNCHANGED <<w, cc, mcfg, pend, rs, cnode, fs, mk, out, xc, snap, anyfail>>
 
@@ -484,12 +505,16 @@ RunStart ==
   /\ SkKeep /\ UNCHANGED <<w, cc, mcfg, pend, cx, rs, cnode, fs, mk, out, xc, snap, anyfail>>
 
 \* parse.go:42-121: packages of the table, in the order GetPackages' map range produced
+\* RootConfig.containers: recursive packages whose own directory holds no Go files but that have sub-packages
+IsContainer(p) == w.container /\ p = "a" /\ P(p) \in tbl /\ mcfg[p]["recursive"]
 Parse ==
   /\ pc = "parse"
-  /\ IF w.pkgfault = "parse-error" \/ tbl = {}              \* mockery.go:193-196: no packages specified in config
+  /\ IF \/ w.pkgfault = "parse-error"
+        \/ tbl = {}                                            \* mockery.go:193-196: no packages specified in config
+        \/ (w.container /\ P("a") \in tbl /\ ~IsContainer("a"))   \* parse.go:53-61: nothing to load, and no container
      THEN pc' = "die" /\ SkKeep /\ UNCHANGED pend
      ELSE /\ Sk([ev |-> "Parsed", n |-> 0])
-          /\ pend' = {ById(q) : q \in tbl} /\ pc' = "selpkg"
+          /\ pend' = {p \in {ById(q) : q \in tbl} : ~IsContainer(p)} /\ pc' = "selpkg"      \* GetPackages skips containers
   /\ UNCHANGED <<w, cc, mcfg, cx, rs, cnode, fs, mk, out, xc, snap, anyfail>>
 
 NextPkg(p) ==
@@ -657,7 +682,7 @@ Write ==
   /\ UNCHANGED <<w, cc, mcfg, pend, cx, rs, cnode, mk, out, xc, snap, anyfail>>
 
 \* mockery.go:378-390: listed interfaces that were never seen (range over a Go map)
-ImplMissing == UNION {{<<q, L>> : L \in {n \in CListed(w, ById(q)) : n \notin SeqSet(IfSeq[ById(q)])}} : q \in tbl}
+ImplMissing == UNION {{<<q, L>> : L \in {n \in CListed(w, ById(q)) : n \notin SeqSet(IfSeq[ById(q)])}} : q \in {t \in tbl : ~IsContainer(ById(t))}}
 EndFiles ==
   /\ pc = "files" /\ pend = {}
   /\ pc' = "post" /\ pend' = ImplMissing
@@ -738,7 +763,7 @@ TableAsContract(t, m) ==
   /\ t = {cc.table[p].path : p \in DOMAIN cc.table}
   /\ \A p \in DOMAIN cc.table : m[p] = cc.table[p].cfg
   /\ \A n \in DOMAIN cc.nodes : m[n] = cc.nodes[n]
-ConfigUsable == w.pkgfault \notin {"nocfg", "unknown-key"} /\ LY!ImplRoleUsed(w.lay) = "real"
+ConfigUsable == w.pkgfault \notin {"nocfg", "unknown-key"} /\ ~EnvBad(w) /\ LY!ImplRoleUsed(w.lay) = "real"
 PassesAgree == pc \in {"parse", "selpkg", "seliface", "entry", "files", "post", "done"} /\ IsRun /\ snap.set /\ ini.passes = 2 =>
                   snap.tbl = tbl /\ snap.mcfg = mcfg
 InitializeAsContract == snap.set /\ ConfigUsable => TableAsContract(snap.tbl, snap.mcfg)
